@@ -92,6 +92,19 @@ func main() {
 	for _, t := range []string{"LZ", "LZX", "LZP", "ROLZ", "ROLZX", "BWT", "TEXT", "UTF", "EXE", "MM"} {
 		specs = append(specs, spec{t, "HUFFMAN", shapeFor[t], 50000, 2 << 20, 32, false, 1})
 	}
+	// large amounts of DATA per block (not only a large parameter): chunk sizes of the entropy coders
+	// inside and after the transforms, match-buffer sizes, the number of BWT primary indexes
+	specs = append(specs,
+		spec{"ROLZ", "NONE", "prose", 600000, 1 << 20, 32, false, 1},
+		spec{"ROLZ", "ANS0", "text", 400000, 1 << 20, 0, false, 2},
+		spec{"ROLZX", "HUFFMAN", "prose", 400000, 512 << 10, 32, false, 1},
+		spec{"LZ", "ANS1", "mixed", 400000, 512 << 10, 0, false, 1},
+		spec{"LZX", "RANGE", "text", 300000, 512 << 10, 64, false, 2},
+		spec{"TEXT+UTF+BWT+RANK+ZRLT", "ANS0", "prose", 500000, 1 << 20, 32, false, 1},
+		spec{"TEXT", "HUFFMAN", "prose", 500000, 1 << 20, 0, false, 1},
+		spec{"LZP", "FPAQ", "periodic", 300000, 512 << 10, 32, false, 1},
+		spec{"BWTS", "CM", "text", 300000, 512 << 10, 0, false, 1},
+	)
 	if len(os.Args) > 2 && os.Args[2] == "append" {
 		// keep the entries already archived byte for byte: only new specs are added
 		var old []props.CorpusEntry
